@@ -42,3 +42,10 @@ def install(eng):
     LOCAL = [k for k in eng.contracts if k.startswith("gwf.backends.local:")]
     eng.enumerator("local-pool-scenarios", ["C11", "C12", "C13"], LOCAL, lambda seed, focus: enum_local.replay(None, None, None, seed))
     eng.enumerator("local-server-clients", ["C14"], LOCAL, lambda seed, focus: enum_local.replay_server(None, None, None, seed))
+    from replay import enum_ops
+    OPS = [k for k in eng.contracts if k.startswith(("gwf.backends.slurm:", "gwf.backends.sge:", "gwf.backends.lsf:",
+                                                     "gwf.backends.utils:"))]
+    eng.enumerator("ops-command-lines", ["C07", "C17"], OPS + BACKEND, enum_ops.run([enum_ops.check_submit]))
+    eng.enumerator("ops-state-tables", ["C08"], OPS + BACKEND, enum_ops.run([enum_ops.check_states]))
+    # C10: compile_script has no unbounded contract (order of option lines): this bounded stand-in decides that clause
+    eng.enumerator("job-scripts-under-bash", ["C10"], OPS, enum_ops.run([enum_ops.check_scripts]), always=True)
